@@ -17,7 +17,7 @@ import (
 
 func init() {
 	register("C20",
-		"TMO-1: in Sent and Received every state change (field store, map update, delete, call of a function that mutates the TimeoutManager or a TimeoutBooster) is dominated by the false leg of the useStaticTimeout test; useStaticTimeout/resendTimeout are written only by the constructor, option closures and updateResendTimeoutUnsafe, which is called from Received only; the resend booster is built after all options ran, from the configured timeout. TMO-2: every value stored to resendTimeout / passed to resendBooster.Reset is proved >= minimumResendTimeout by interval analysis (guard + phi), default >= minimum as constants, boostCount only ever ++ or =0 and boostPercent only set from values guarded > 0. TMO-3: under the fact 'resent' Sent inserts no sample, deletes the sample of that sequence number / zeroes the SYN time; a fresh sample is recorded only under !resent; Received consumes (deletes/zeroes) the sample on the path that uses it and derives the new timeout from that sample only. TMO-4: Boost increments boostCount once per call and only past the frequency-limit test; the resend booster is constructed with the limit on. TMO-5: updateResendTimeoutUnsafe always resets the resend booster with the value it stored; Reset zeroes boostCount and replaces originalTimeout. TMO-7: every getter/setter of the TimeoutManager reads/writes the field or booster its name says (and the connection's setters forward to the matching one). TMO-6: the connection reports truthfully: sendPacket calls Sent(msg, isResend) with its own parameters after the successful transport send on every success path; the queue's retransmission callbacks (called from queue.resend only) report isResend = true and the first transmission in the send loop false; the receive loop reports every parsed packet before dispatching on its type; the handshakes report their SYN with the restart flag. TMO-3 also: the invalidation under resent is unconditional (no further condition such as the boost having taken effect) and keyed by the packet's own Seq. TMO-3 also: a sample is consumed only on legs reached from the type tests of the message that answers the sampled one (SYN time: SYN/SYNACK; DATA send time: ACK). TMO-1 also: the static-timeout option is unconditional. TMO-6 also: on the boolean program over the restart flag of each handshake, every Sent(SYN) after the first sees resent == true. Not decided: float32 rounding of the boost product; matching of a late duplicate ACK to the right sample.",
+		"TMO-1: in Sent and Received every state change (field store, map update, delete, call of a function that mutates the TimeoutManager or a TimeoutBooster) is dominated by the false leg of the useStaticTimeout test; useStaticTimeout/resendTimeout are written only by the constructor, option closures and updateResendTimeoutUnsafe, which is called from Received only; the resend booster is built after all options ran, from the configured timeout. TMO-2: every value stored to resendTimeout / passed to resendBooster.Reset is proved >= minimumResendTimeout by interval analysis (guard + phi), default >= minimum as constants, boostCount only ever ++ or =0 and boostPercent only set from values guarded > 0. TMO-3: under the fact 'resent' Sent inserts no sample, deletes the sample of that sequence number / zeroes the SYN time; a fresh sample is recorded only under !resent; Received consumes (deletes/zeroes) the sample on the path that uses it and derives the new timeout from that sample only. TMO-4: Boost increments boostCount once per call and only past the frequency-limit test; the resend booster is constructed with the limit on. TMO-5: updateResendTimeoutUnsafe always resets the resend booster with the value it stored; Reset zeroes boostCount and replaces originalTimeout. TMO-7: every getter/setter of the TimeoutManager reads/writes the field or booster its name says (and the connection's setters forward to the matching one). TMO-6: the connection reports truthfully: sendPacket calls Sent(msg, isResend) with its own parameters after the successful transport send on every success path; the queue's retransmission callbacks (called from queue.resend only) report isResend = true and the first transmission in the send loop false; the receive loop reports every parsed packet before dispatching on its type; the handshakes report their SYN with the restart flag. TMO-3 also: the invalidation under resent is unconditional (no further condition such as the boost having taken effect) and keyed by the packet's own Seq. TMO-3 also: a sample is consumed only on legs reached from the type tests of the message that answers the sampled one (SYN time: SYN/SYNACK; DATA send time: ACK). TMO-1 also: the static-timeout option is unconditional. TMO-6 also: on the boolean program over the restart flag of each handshake, every Sent(SYN) after the first sees resent == true. The race and lock obligations of C18 are imported (Boost's check-then-act is atomic only under the booster's mutex). Not decided: float32 rounding of the boost product; matching of a late duplicate ACK to the right sample.",
 		[]string{"time.Time zero value / IsZero, map delete and lookup have their language semantics"},
 		runC20)
 }
